@@ -1,11 +1,11 @@
 (* C16 — Time constraints accept exactly their documented window (instruction level).
    For every oracle, configuration, frame, state: the exact result of OP_CHECK_TIMESTAMP / OP_CHECK_EPOCH
    and their _VERIFY forms, including the error cases. [be_to_Z c] is the unsigned big-endian value of the
-   constraint. Lock builders (after / before / between) are covered at bytecode level by the correspondence
-   stream and the boundary grid; D11 (before-lock negates the slack clause) is a known finding. *)
+   constraint. Lock builders (after / before / between): exact verdict of run_auth_scripts on the builders' real
+   bytes (Builders.v, tied to tools.py by correspondence); the before-lock theorem documents known finding D11. *)
 From Coq Require Import ZArith List.
 From Coq.Strings Require Import Byte.
-From TS Require Import Bytes State Prog Ops Interp TimeSpec TablesCheck.
+From TS Require Import Bytes State Prog Ops Interp TimeSpec TablesCheck Builders LockSpecC16.
 Import ListNotations.
 Open Scope Z_scope.
 
@@ -96,7 +96,73 @@ Proof.
   exists (default_config 0), 30, 60, 60. vm_compute. repeat split; discriminate.
 Qed.
 
+(* ---- the lock builders, on their real bytes; c = int_to_bytes(ts), 2..255 bytes ---- *)
+Theorem C16_after_lock_exact :
+  forall orc cfg ts thr f c vals,
+  flag_get (c_flags cfg) thr_key = Some (FVInt thr) ->
+  (2 <= List.length c <= 255 /\ List.length c <= c_max_item_size cfg)%nat -> (1 <= c_max_items cfg)%nat ->
+  cache_get (init_cache cfg vals) ts_key = Some (VOne (AInt ts)) ->
+  match run_auth_scripts orc cfg (S (S (S f))) [ts_after_lock c false] vals with
+  | AuthVerdict b _ => b = true <-> (be_to_Z c <= ts /\ (thr <= 0 \/ ts - c_now cfg < thr))
+  | _ => False
+  end.
+Proof. exact ts_after_accepts_iff. Qed.
+
+Theorem C16_between_lock_exact :
+  forall orc cfg ts thr f c1 c2 vals,
+  flag_get (c_flags cfg) thr_key = Some (FVInt thr) ->
+  (2 <= List.length c1 <= 255 /\ List.length c1 <= c_max_item_size cfg)%nat ->
+  (2 <= List.length c2 <= 255 /\ List.length c2 <= c_max_item_size cfg)%nat -> (1 <= c_max_items cfg)%nat ->
+  cache_get (init_cache cfg vals) ts_key = Some (VOne (AInt ts)) ->
+  match run_auth_scripts orc cfg (S (S (S (S (S (S f)))))) [ts_between_lock c1 c2 false] vals with
+  | AuthVerdict b _ =>
+    b = true <-> (be_to_Z c1 <= ts /\ (thr <= 0 \/ ts - c_now cfg < thr) /\ ts < be_to_Z c2)
+  | _ => False
+  end.
+Proof. exact ts_between_accepts_iff. Qed.
+
+(* D11: the before lock accepts t < ts, but ALSO every t that is beyond the slack *)
+Theorem C16_before_lock_exact_D11 :
+  forall orc cfg ts thr f c vals,
+  flag_get (c_flags cfg) thr_key = Some (FVInt thr) ->
+  (2 <= List.length c <= 255 /\ List.length c <= c_max_item_size cfg)%nat -> (1 <= c_max_items cfg)%nat ->
+  cache_get (init_cache cfg vals) ts_key = Some (VOne (AInt ts)) ->
+  match run_auth_scripts orc cfg (S (S (S (S f)))) [ts_before_lock c false] vals with
+  | AuthVerdict b _ => b = true <-> (ts < be_to_Z c \/ (0 < thr /\ thr <= ts - c_now cfg))
+  | _ => False
+  end.
+Proof. exact ts_before_accepts_iff. Qed.
+
+Theorem C16_after_verify_lock_exact :
+  forall orc cfg ts thr f c vals,
+  flag_get (c_flags cfg) thr_key = Some (FVInt thr) ->
+  (2 <= List.length c <= 255 /\ List.length c <= c_max_item_size cfg)%nat -> (2 <= c_max_items cfg)%nat ->
+  cache_get (init_cache cfg vals) ts_key = Some (VOne (AInt ts)) ->
+  match run_auth_scripts orc cfg (S (S (S f))) [[x01]; ts_after_lock c true] vals with
+  | AuthVerdict b _ => b = true <-> (be_to_Z c <= ts /\ (thr <= 0 \/ ts - c_now cfg < thr))
+  | _ => False
+  end.
+Proof. exact ts_after_verify_accepts_iff. Qed.
+
+Theorem C16_between_verify_lock_exact :
+  forall orc cfg ts thr f c1 c2 vals,
+  flag_get (c_flags cfg) thr_key = Some (FVInt thr) ->
+  (2 <= List.length c1 <= 255 /\ List.length c1 <= c_max_item_size cfg)%nat ->
+  (2 <= List.length c2 <= 255 /\ List.length c2 <= c_max_item_size cfg)%nat -> (2 <= c_max_items cfg)%nat ->
+  cache_get (init_cache cfg vals) ts_key = Some (VOne (AInt ts)) ->
+  match run_auth_scripts orc cfg (S (S (S (S (S (S (S f))))))) [[x01]; ts_between_lock c1 c2 true] vals with
+  | AuthVerdict b _ =>
+    b = true <-> (be_to_Z c1 <= ts /\ (thr <= 0 \/ ts - c_now cfg < thr) /\ ts < be_to_Z c2)
+  | _ => False
+  end.
+Proof. exact ts_between_verify_accepts_iff. Qed.
+
 Print Assumptions C16_check_timestamp_exact.
+Print Assumptions C16_after_lock_exact.
+Print Assumptions C16_between_lock_exact.
+Print Assumptions C16_before_lock_exact_D11.
+Print Assumptions C16_after_verify_lock_exact.
+Print Assumptions C16_between_verify_lock_exact.
 Print Assumptions C16_verdict_formula.
 Print Assumptions C16_check_timestamp_verify_exact.
 Print Assumptions C16_check_epoch_exact.
